@@ -49,6 +49,18 @@ fn del_indices(c: &Case, n: usize) -> Vec<usize> {
     d
 }
 
+/// one name per line, in the layouts a text editor may leave: with or without a final newline,
+/// Windows line endings, a trailing blank line, trailing white space
+pub fn names_file_text(names: &[String], variant: usize) -> String {
+    match variant % 5 {
+        0 => names.join("\n") + "\n",
+        1 => names.join("\n"),
+        2 => names.join("\r\n") + "\r\n",
+        3 => names.join("\n") + "\n\n",
+        _ => names.iter().map(|n| format!("{n} \t")).collect::<Vec<_>>().join("\n") + "\n",
+    }
+}
+
 fn check(c: &Case, ctx: &Ctx) -> Outcome {
     let (_anc, samples) = gen::materialise_set(&c.set);
     let (k, rc) = (c.set.k, c.set.rc);
@@ -72,10 +84,10 @@ fn check(c: &Case, ctx: &Ctx) -> Outcome {
         if !c.in_place {
             args.push("-o".into());
             // with or without the .skf suffix
-            args.push(if n % 2 == 0 { "y.skf".into() } else { "y".into() });
+            args.push(["y", "y.skf", "y.2"][(n + k / 2) % 3].into());
         }
         if c.names_file {
-            std::fs::write(dir.join("names.txt"), del_names.join("\n") + "\n").unwrap();
+            std::fs::write(dir.join("names.txt"), names_file_text(&del_names, n + k)).unwrap();
             args.push("-f".into());
             args.push("names.txt".into());
         } else {
@@ -89,13 +101,24 @@ fn check(c: &Case, ctx: &Ctx) -> Outcome {
             if after != before {
                 return Err(Outcome::Fail("refused delete changed the input file".into()));
             }
-            if dir.join("y.skf").exists() {
+            if dir.join("y.skf").exists() || dir.join("y.2.skf").exists() {
                 return Err(Outcome::Fail("refused delete wrote an output file".into()));
             }
             return Ok((true, false));
         }
         must_ok(&o, &format!("ska delete {:?}", &args[1..]))?;
-        let result_file = if c.in_place { "x.skf" } else { "y.skf" };
+        let result_file = if c.in_place {
+            "x.skf"
+        } else {
+            // -o y, -o y.skf and -o y.2 must write y.skf, y.skf and y.2.skf
+            match (n + k / 2) % 3 {
+                2 => "y.2.skf",
+                _ => "y.skf",
+            }
+        };
+        if !dir.join(result_file).exists() {
+            return Err(Outcome::Fail(format!("ska {:?} did not write {result_file}", &args[1..])));
+        }
         if !c.in_place {
             let after = std::fs::read(dir.join("x.skf")).map_err(|e| Outcome::Infra(e.to_string()))?;
             if after != before {
